@@ -335,6 +335,61 @@ def check_recover(ctx):
                 break
     finish(ctx, o1, b1, 'recover/record-applied-to-wrong-keyspace')
     finish(ctx, o2, b2, 'recover/keyspace-id-reusable-while-journaled')
+    # the same for records that sit in a sealed journal (recover_sealed_memtables)
+    o3 = ctx.ob('ids/never-reused-sealed', 'recover_sealed_memtables: keyspace id counter > every keyspace id occurring in a record of a sealed journal, whether its keyspace still exists or not', ['recovery::recover_sealed_memtables'])
+    ex, paths, env = recov.run_recover(ctx, n_ks=2, shape=(), sealed_shape=((1, 0), (0, 1)))
+    b3 = []
+    for p in paths:
+        if p.status in ('error', 'timeout', 'loop_bound'):
+            o3.status = 'undecided'; o3.detail = f'executor: {p.status} {p.notes[-1:]}'; return
+        if p.status != 'returned' or ctx.sat(p.pc + [ret_is_ok(p)], o3)[0] != z3.sat:
+            continue
+        fc = recov.final_counters(ex, p)
+        if fc is None:
+            continue
+        S, V, K = fc
+        o3.reach += 1
+        reads = [e.args['idx'] for e in p.events if e.kind == 'BATCH_READ']
+        if K is None:
+            b3.append((p, 'keyspace id counter untouched')); continue
+        for i in reads:
+            for x in [d['ksid'] for d in env.batches[i]['items']] + env.batches[i]['clears']:
+                if ctx.sat(p.pc + [z3.ULT(x, bv(2 ** 62)), z3.Not(z3.UGT(K, x))], o3)[0] != z3.unsat:
+                    b3.append((p, f'after recovery the keyspace id counter can be ≤ id {x} that occurs in a sealed journal (batch #{i}); a keyspace created next inherits those records on the following reopen')); break
+            if b3:
+                break
+    finish(ctx, o3, b3, 'recover-sealed/keyspace-id-reusable-while-journaled')
+
+
+def check_create_atomic(ctx):
+    pat = r'^db::<impl>::keyspace$'
+    ob = ctx.ob('create/atomic', 'Database::keyspace: the lookup of the name, the id allocation and the registration of the new keyspace happen under ONE hold of the keyspace dictionary\'s write lock '
+                '(two callers opening the same new name get the same keyspace)', [pat])
+    ex, paths = ctx.run(pat, cache_key='c12.create', loop_bound=2, no_inline=[r'Keyspace::create_new$', r'MetaKeyspace::create_keyspace$', r'is_valid_keyspace_name$'])
+    bad = []
+    for p in paths:
+        cr = [e for e in p.events if e.kind == 'CALL' and e.args.get('callee', '').endswith('MetaKeyspace::create_keyspace')]
+        if not cr:
+            continue
+        ob.reach += 1
+        wl = [e for e in p.events if e.kind == 'WLOCK' and 'keyspaces' in obj_name(e) and e.idx < cr[0].idx]
+        look = [e for e in p.events if e.kind in ('MAP_GET', 'MAP_CONTAINS_KEY') and 'keyspaces' in obj_name(e)]
+        nx = [e for e in p.events if e.kind == 'CTR_NEXT' and 'keyspace_id_counter' in obj_name(e)]
+        if not wl:
+            bad.append((p, 'a new keyspace is registered without holding the dictionary write lock')); continue
+        w = wl[-1]
+        unl = [e for e in p.events if e.kind == 'UNLOCK' and w.idx < e.idx < cr[0].idx and 'keyspaces' in obj_name(e)]
+        if unl:
+            bad.append((p, 'the dictionary lock is released between the lookup and the registration')); continue
+        if not look or look[-1].idx < w.idx:
+            bad.append((p, 'the name is looked up before the write lock that protects the registration is taken (no re-check under it): two callers creating the same name both create a keyspace; '
+                           'the dictionary keeps one, the other handle writes into an orphan tree whose id/name mapping survives a later delete')); continue
+    if ob.reach == 0:
+        ob.status = 'undecided'; ob.detail = 'vacuous'
+    elif not bad:
+        ob.status = 'discharged'; ob.sample = {'paths': ob.reach}
+    else:
+        ctx.candidate(ob, 'Database.keyspace/create-not-atomic', f'{ob.id}: {bad[0][1]}', confirm=lambda: native_create_race(ctx))
 
 
 def finish(ctx, ob, bad, role):
@@ -344,6 +399,27 @@ def finish(ctx, ob, bad, role):
         ob.status = 'discharged'; ob.sample = {'paths': ob.reach}
     else:
         ctx.candidate(ob, role, f'{ob.id}: {bad[0][1]}', confirm=lambda: native_lifecycle(ctx))
+
+
+def native_create_race(ctx):
+    """several threads open the same new keyspace name at once: all must get the same keyspace (same id)"""
+    L = ['dir $DIR/db', 'open workers=0']
+    for r in range(12):
+        for t in range(4):
+            L.append(f'spawn_free T{r}_{t} mkks n{r}')
+        for t in range(4):
+            L.append(f'join T{r}_{t}')
+    L += ['list_ks', 'close', 'open workers=0', 'list_ks', 'close']
+    spath, out = ctx.run_scenario('\n'.join(L) + '\n', tag='create-race')
+    if any(c == 'CRASH' for _i, c, _r in out):
+        return True, spath, 'crash: ' + out[-1][2][-200:]
+    joins = [r for _i, c, r in out if c == 'join']
+    for r in range(12):
+        ids = set(joins[r * 4:(r + 1) * 4])
+        if len(ids) > 1:
+            return True, spath, f'four threads opened the new keyspace n{r} at once and got different keyspaces: {sorted(ids)}'
+    v = native_lifecycle(ctx)
+    return v
 
 
 def native_lifecycle(ctx):
@@ -357,6 +433,8 @@ def native_lifecycle(ctx):
         'old-handle-refused': ['ks a', 'insert a 6b31 31', 'delete_ks a keep', 'insert a#old 6b32 32 => err', 'remove a#old 6b31 => err', 'ks a', 'dump a => []'],
         'delete-only-keyspace-recreate-after-reopen': ['ks b', 'insert b 6b31 41', 'insert b 6b32 42', 'delete_ks b', 'reopen', 'ks c', 'dump c => []', 'insert c 6b33 43', 'reopen', 'ks c', 'dump c => [6b33:43]',
                                                        'reopen', 'list_ks => [c]', 'ks c', 'dump c => [6b33:43]'],
+        'id-reuse-sealed-journal': ['rotation_threshold 0', 'ks a', 'ks b', 'insert b 6b31 4f4c44', 'insert b 6b32 4f4c44', 'insert a 6b31 31', 'rotate a', 'worker_drain', 'delete_ks b', 'reopen', 'ks c', 'dump c => []',
+                                    'insert c 6b39 39', 'reopen', 'ks c', 'dump c => [6b39:39]', 'ks a', 'dump a => [6b31:31]'],
         'isolation': ['ks a', 'ks b', 'insert a 6b31 31', 'insert b 6b31 41', 'remove a 6b31', 'dump b => [6b31:41]', 'clear b', 'insert a 6b32 32', 'dump a => [6b32:32]', 'dump b => []',
                       'reopen', 'ks a', 'ks b', 'dump a => [6b32:32]', 'dump b => []'],
         'flushed-then-deleted': ['ks a', 'ks b', 'insert b 6b31 41', 'rotate b', 'worker_drain', 'insert b 6b32 42', 'delete_ks b', 'reopen', 'ks c', 'dump c => []', 'reopen', 'ks c', 'dump c => []',
@@ -403,6 +481,7 @@ def run(ctx):
     check_deleted(ctx)
     check_delete_order(ctx)
     check_meta_removed(ctx)
+    check_create_atomic(ctx)
     check_recover_keyspaces(ctx)
     check_recover(ctx)
     for o in ctx.obligations:
